@@ -342,8 +342,11 @@ def d1_complex(ctx, idx):
             r.check(good, construct, v.text(), why, where, expected=want, found=v.text())
             for key in (k1, k2):
                 attrs = [at for at, kk in attr_keys.items() if kk == key]
-                r.check(bool(attrs), '%s.__init__: RealInterval(config[%r])' % (cls, key), 'self.%s' % (attrs[0] if attrs else '?'),
-                        'no RealInterval is built from config[%r]: that declared range is ignored' % key, ctor.loc)
+                if not attrs and (idx.unreviewed or not good):
+                    r.undecided('%s.__init__: RealInterval(config[%r])' % (cls, key), 'no RealInterval built from this key was found', ctor.loc)
+                else:
+                    r.check(bool(attrs), '%s.__init__: RealInterval(config[%r])' % (cls, key), 'self.%s' % (attrs[0] if attrs else '?'),
+                            'no RealInterval is built from config[%r]: that declared range is ignored' % key, ctor.loc)
 
 
 def d1_choice(ctx, idx):
@@ -411,7 +414,9 @@ def d2_random_function(ctx, idx):
             label = 'complex' if any(c == ('cfg', 'complex') for c in p.conds) else 'real'
             if 'nin' not in seen:
                 seen.add('nin')
-                if nin is None:
+                if nin is None and idx.unreviewed:
+                    r_ar.undecided('RandomFunction.gen_sample: nin', 'nin tag not found here; unreviewed helpers remain', fi.loc)
+                elif nin is None:
                     r_ar.violation('RandomFunction.gen_sample: nin', 'the function is no longer tagged with its number of arguments '
                                    '(nin): graders cannot check the arity a student uses', fi.loc, expected='random_function.nin = input_dim')
                 else:
@@ -436,7 +441,9 @@ def d2_random_function(ctx, idx):
             want = ('cmp', '!=', ln, ('cfg', 'input_dim'))
             raising = [q for q in qs if q.kind == 'raise']
             construct = 'random_function: arity check'
-            if not raising:
+            if not raising and idx.unreviewed:
+                r_ar.undecided(construct, 'no arity check found here; unreviewed helpers remain', inner.loc)
+            elif not raising:
                 r_ar.violation(construct, 'a call with the wrong number of arguments is no longer refused: numpy broadcasting then '
                                'silently evaluates a function of another arity', inner.loc, expected='if len(args) != input_dim: raise ConfigError')
             for q in raising:
@@ -616,6 +623,13 @@ _CACHE_OLD = '        self.norm = RealInterval(self.config[\'norm\'])\n\n    def
 _CACHE_NEW = '        self.norm = RealInterval(self.config[\'norm\'])\n        self.complex = self.config[\'complex\']\n\n    def gen_sample(self):\n        """\n        Generates an array sample and returns it as a MathArray.\n\n        This calls generate_sample, which is the routine that should be subclassed if\n        needed, rather than this one.\n        """\n        array = self.generate_sample()\n        return MathArray(array)\n\n    def generate_sample(self):\n        """\n        Generates a random array of shape and norm determined by config. After\n        generation, the apply_symmetry and normalize functions are applied to the result.\n        These functions may be shadowed by a subclass.\n\n        If apply_symmetry or normalize raise the Retry exception, a new sample is\n        generated, and the procedure starts anew.\n\n        Returns a numpy array.\n        """\n        # Loop until a good sample is found\n        loops = 0\n        while loops < 100:\n            loops += 1\n\n            # Construct an array with entries in [-0.5, 0.5)\n            array = np.random.random_sample(self.config[\'shape\']) - 0.5\n            # Make the array complex if needed\n            if self.complex:\n                imarray'
 _LOOP_HEAD = "        loops = 0\n        while loops < 100:\n            loops += 1\n"
 
+_TRI_OLD = "        if self.config['triangular'] == 'upper':\n            return np.triu(array)\n        elif self.config['triangular'] == 'lower':\n            return np.tril(array)\n        return array\n\n\n"
+_TRI_DICT = "        keep = {'upper': np.triu, 'lower': np.tril}.get(self.config['triangular'])\n        return array if keep is None else keep(array)\n\n\n"
+_SYM_OLD = "        # Apply the symmetry property\n        if self.config['symmetry'] == 'diagonal':\n            working = np.diag(np.diag(array))\n        elif self.config['symmetry'] == 'symmetric':\n            working = array + array.transpose()\n        elif self.config['symmetry'] == 'antisymmetric':\n            working = array - array.transpose()\n        elif self.config['symmetry'] == 'hermitian':\n            working = array + np.conj(array.transpose())\n        elif self.config['symmetry'] == 'antihermitian':\n            working = array - np.conj(array.transpose())\n        else:\n            working = array\n\n"
+_SYM_TABLE = "        table = {\n            'diagonal': lambda arr: np.diag(np.diag(arr)),\n            'symmetric': lambda arr: arr + arr.transpose(),\n            'antisymmetric': lambda arr: arr - arr.transpose(),\n            'hermitian': lambda arr: arr + np.conj(arr.transpose()),\n            'antihermitian': lambda arr: arr - np.conj(arr.transpose()),\n        }\n        chosen = table.get(self.config['symmetry'])\n        working = array if chosen is None else chosen(array)\n\n"
+_LOOP_OLD = "        loops = 0\n        while loops < 100:\n            loops += 1\n\n            # Construct an array with entries in [-0.5, 0.5)\n            array = np.random.random_sample(self.config['shape']) - 0.5\n            # Make the array complex if needed\n            if self.config['complex']:\n                imarray = np.random.random_sample(self.config['shape']) - 0.5\n                array = array + 1j*imarray\n\n            try:\n                # Apply any symmetries to the array\n                array = self.apply_symmetry(array)\n\n                # Normalize the result\n                array = self.normalize(array)\n\n                # Return the result\n                return array\n            except Retry:\n                continue\n\n"
+_LOOP_FOR_DISPATCH = "        for _ in range(100):\n            array = np.random.random_sample(self.config['shape']) - 0.5\n            if self.config['complex']:\n                imarray = np.random.random_sample(self.config['shape']) - 0.5\n                array = array + 1j*imarray\n            try:\n                array = self.normalize(self.apply_symmetry(array))\n            except Exception as err:\n                if isinstance(err, Retry):\n                    continue\n                raise\n            return array\n\n"
+
 MUTANTS = [
     # D1
     Mutant('int-high-is-stop', SAMPLING, "high=self.config['stop'] + 1", "high=self.config['stop']", 'D1'),
@@ -698,6 +712,10 @@ MUTANTS = [
 ]
 
 BENIGN = [
+    Benign('triangular-dispatch-dict', MATRIX, _TRI_OLD, _TRI_DICT),
+    Benign('symmetry-dispatch-table-of-lambdas', MATRIX, _SYM_OLD, _SYM_TABLE),
+    Benign('retry-for-range-narrow-try-isinstance-dispatch', MATRIX, _LOOP_OLD, _LOOP_FOR_DISPATCH),
+    Benign('rf-shape-tuple-starred', SAMPLING, "A = np.random.rand(output_dim, num_terms, input_dim) / 2 + 0.5", "shape = (output_dim, num_terms, input_dim)\n        A = np.random.rand(*shape) / 2 + 0.5"),
     Benign('real-formula-from-the-top', SAMPLING, "return start + (stop - start) * np.random.random_sample()", "return stop - (stop - start) * (1 - np.random.random_sample())"),
     Benign('randint-positional', SAMPLING, "np.random.randint(low=self.config['start'], high=self.config['stop'] + 1)", "np.random.randint(self.config['start'], 1 + self.config['stop'])"),
     Benign('rf-divisor-reordered', SAMPLING, '/ (num_terms * input_dim)', '/ input_dim / num_terms'),
